@@ -43,6 +43,7 @@ type podRec struct {
 	ByCtrl      bool
 	EverRunning bool
 	Succeeded   bool
+	LateSuccess bool      // it exited successfully only after its deletion had been requested (indeterminate: furiko may or may not get to see it)
 	TerminalAt  time.Time // when the node reported a terminal phase
 	FinishedAt  time.Time // container finishedAt written by the node
 	DelReqAt    time.Time // first deletionTimestamp seen
@@ -428,14 +429,32 @@ func retryDelay(j *execution.Job) time.Duration {
 }
 
 // truth computes from the Pod history whether the completion strategy is satisfied / unsatisfiable.
+// A success that happened only while the Pod was being deleted is indeterminate: it supports a
+// reported Success (it really succeeded), but it is not demanded - the attempt was given up and
+// may count as failed (C12), and the object may be gone before any sync could see the result.
 func (m *Monitors) truth(jr *jobRec, j *execution.Job) (satisfied, unsatisfiable bool) {
+	// lenient reading, used to justify what furiko reported or did: a late success may count
+	// as a success (for "Succeeded") and may count as a failure (for "Failed")
+	satisfied, _ = m.truthMode(jr, j, true)
+	_, unsatisfiable = m.truthMode(jr, j, false)
+	return
+}
+
+// truthDemanded is the strict reading, used for what must have been reported at the fixpoint.
+func (m *Monitors) truthDemanded(jr *jobRec, j *execution.Job) (satisfied, unsatisfiable bool) {
+	satisfied, _ = m.truthMode(jr, j, false)
+	_, unsatisfiable = m.truthMode(jr, j, true)
+	return
+}
+
+func (m *Monitors) truthMode(jr *jobRec, j *execution.Job, lateCounts bool) (satisfied, unsatisfiable bool) {
 	n := numIndexes(j)
 	succ := map[string]bool{}
 	count := map[string]int{}
 	live := map[string]bool{}
 	for _, r := range jr.Pods {
 		count[r.Idx]++
-		if r.Succeeded {
+		if r.Succeeded && (lateCounts || !r.LateSuccess) {
 			succ[r.Idx] = true
 		}
 		if r.live() {
@@ -507,6 +526,7 @@ func (m *Monitors) onPod(ev *Event) {
 		if (p.Status.Phase == corev1.PodSucceeded || p.Status.Phase == corev1.PodFailed) && rec.TerminalAt.IsZero() {
 			rec.TerminalAt = now
 			rec.Succeeded = p.Status.Phase == corev1.PodSucceeded
+			rec.LateSuccess = rec.Succeeded && (p.DeletionTimestamp != nil || !rec.DelReqAt.IsZero())
 			for _, cs := range p.Status.ContainerStatuses {
 				if cs.State.Terminated != nil {
 					rec.FinishedAt = cs.State.Terminated.FinishedAt.Time
@@ -1013,7 +1033,7 @@ func (m *Monitors) onJob(ev *Event) {
 		if old.Status.Condition.Finished != nil {
 			jr.UserEditedAfterFinish = true
 		}
-		if old.Spec.KillTimestamp != nil && j.Spec.KillTimestamp == nil && now.After(old.Spec.KillTimestamp.Time) {
+		if old.Spec.KillTimestamp != nil && j.Spec.KillTimestamp == nil && !now.Before(old.Spec.KillTimestamp.Time) {
 			jr.KillCleared = true // removed although it had passed (admission must refuse this)
 		}
 		had, has := false, false
@@ -1611,7 +1631,7 @@ func (m *Monitors) Fixpoint() {
 		// C10 / C12 bounded progress for started Jobs that are not being deleted
 		if !j.Status.StartTime.IsZero() && j.Status.Condition.Finished == nil && j.DeletionTimestamp == nil {
 			m.Evals["C10_fix"]++
-			sat, unsat := m.truth(jr, j)
+			sat, unsat := m.truthDemanded(jr, j)
 			stuckOK := false
 			var alive []string
 			for _, r := range jr.Pods {
